@@ -58,7 +58,12 @@ def run(R):
     # keep the cheap ones (the released library computes them too)
     # inputs whose behaviour was changed on purpose by the fix: commits (over-long sha1crypt / scrypt salts) are not part of
     # the cross-release comparison
-    ops += [o for o, m in zip(g, gm) if m[0] not in ("scrypt",) and "bigsalt" not in m[1]]
+    kept = [o for o, m in zip(g, gm) if m[0] not in ("scrypt",) and "bigsalt" not in m[1]]
+    # the objects hold what an application may keep in them (random bytes in `setting`, `input` and the scratch areas), refilled now and then
+    for k, o in enumerate(kept):
+        if k % 10 == 0:
+            for i in range(8): ops.append("O %d %s %d %d" % (i, "rfp"[(k // 10 + i) % 3], i, R.rng.randrange(1 << 30)))
+        ops.append(o)
     for m in S.METHODS:
         for sym, ver in [("crypt", "GLIBC_2.2.5"), ("crypt", "XCRYPT_2.0"), ("fcrypt", "GLIBC_2.2.5"), ("xcrypt", "XCRYPT_2.0")]:
             ops.append("CV %s %s %s %s" % (sym, ver, hx(b"old binary"), hx(S.CANON[m])))
@@ -83,6 +88,12 @@ def run(R):
     diffs += compare(R, ops, fresh, ml, proj, "old-header client on fresh library vs model")
     if len(fresh) != len(ops):
         bad.append(("client", "a client built against the released <crypt.h> does not run against the fresh library: " + e1[-300:], e1[-300:]))
+    # an old binary may keep its phrase and setting in the `input` and `setting` fields of struct crypt_data (the released header offers them
+    # for that) and use them again: the harness fills both with random bytes before each call and compares them afterwards (seeded/C20c)
+    for op, a in zip(ops, fresh):
+        if op.startswith("C ") and fields(a).get("app") == "0":
+            bad.append((op, "the fresh library wrote the application-owned fields `setting`/`input` of the released struct crypt_data layout "
+                            "(offsets 384..1279): an old binary that keeps its phrase there loses it", a))
     # layout the client compiled in vs released facts
     f = fields(fresh[0]) if fresh else {}
     lay = ref["layout"]
